@@ -24,7 +24,8 @@ class KGen:
                  td_depth: int = 2, gated: float = 0.35, exc_end: float = 0.4, many_callbacks: bool = False,
                  p_cancel: float = 0.0, p_pair: float = 0.25, p_manual: float = 0.0, p_mid: float = 0.0,
                  p_cur_after: float = 0.0, p_defer: float = 0.0, p_again: float = 0.0, p_forget: float = 0.0,
-                 p_comp: float = 0.0) -> None:
+                 p_comp: float = 0.0, body_get: bool = False) -> None:
+        self.body_get = body_get
         self.rng = rng
         self.w = dict(DEFAULT_WEIGHTS)
         if weights:
@@ -113,6 +114,25 @@ class KGen:
             cb["reraise"] = True        # raises the very exception object it is handed (nothing after a clean exit)
         return cb
 
+    def awaited_lookups(self, cb: dict[str, Any], c: int) -> None:
+        """Asynchronous callbacks (registered directly) *await* half of their lookups - preferably of something an
+        asynchronous factory of the context has yet to make. (No random draws: the rest of the case stays as it was.)
+        A factory that suspends would suspend the teardown in the middle of a callback: not generated."""
+        if not self.body_get or c not in self.ctxs:
+            return
+        x = self.ctxs[c]
+        if cb["async"]:
+            for n, b in enumerate(cb["body"]):
+                if b["op"] == "getnw" and (cb["id"] + n) % 2 == 0:
+                    af = x.get("afac_keys", [])
+                    if af and cb["id"] % 3:
+                        b["ty"], b["name"] = af[(cb["id"] + n) % len(af)]
+                    if (b["ty"], b["name"]) not in x.get("gated_keys", ()):
+                        b["op"] = "get"
+                        x.setdefault("body_get_keys", set()).add((b["ty"], b["name"]))
+        for r in cb["regs"]:
+            self.awaited_lookups(r, c)
+
     def task(self) -> int:
         return self.rng.choice(list(self.stacks))
 
@@ -142,7 +162,8 @@ class KGen:
             eff = parent if parent is not None else self.cur.get(t)
             self.ctxs[c] = {"state": "inactive", "parent": eff,
                             "keys": list(self.ctxs[eff]["keys"]) if eff is not None else [],
-                            "gated_keys": set(self.ctxs[eff].get("gated_keys", ())) if eff is not None else set()}
+                            "gated_keys": set(self.ctxs[eff].get("gated_keys", ())) if eff is not None else set(),
+                            "afac_keys": list(self.ctxs[eff].get("afac_keys", ())) if eff is not None else []}
             return {"op": "new", "t": t, "c": c, "parent": parent}
         if kind == "enter":
             cands = [c for c, x in self.ctxs.items() if x["state"] == "inactive"]
@@ -199,6 +220,7 @@ class KGen:
             if rng.random() < 0.3 or self.many_callbacks:
                 op["td"] = self.cb()
                 op["td"]["pass"] = False
+                self.awaited_lookups(op["td"], c)
             if rng.random() < self.malformed and self.ctxs[c]["state"] == "open":   # (one reason to fail at a time)
                 m = rng.choice(["name", "none", "type", "td"])
                 if m == "name":
@@ -226,6 +248,10 @@ class KGen:
                   "noneIn": False, "annot": rng.random() < 0.3, "single": rng.random() < 0.5, "via": self.via(t, c)}
             for ty in op["types"]:
                 self.ctxs[c]["keys"].append((ty, op["name"]))
+            if op["gated"] and any((ty, op["name"]) in self.ctxs[c].get("body_get_keys", ()) for ty in op["types"]):
+                op["gated"] = False     # (a teardown callback of this context awaits this pair: see awaited_lookups)
+            if is_async and not op["gated"]:
+                self.ctxs[c].setdefault("afac_keys", []).extend((ty, op["name"]) for ty in op["types"])
             if rng.random() < self.malformed and self.ctxs[c]["state"] == "open":   # (one reason to fail at a time)
                 m = rng.choice(["name", "none", "empty"])
                 if m == "name":
@@ -363,6 +389,8 @@ class KGen:
                     if first is not None:
                         self.queue.insert(0, op)
                         return first
+            if op["via"] != "ctxtd" and op["callable"]:
+                self.awaited_lookups(op["cb"], c)
             return op
         if kind == "current":
             return {"op": "current", "t": t}
